@@ -62,21 +62,37 @@ def model_configs(ctx, rng):
                     rhs, y0, _ = ivpgen.system(rng, dim, t1 - t0, t0, kinds=["rough", "lin", "rough"])
                 tol = 10.0 ** (-rng.uniform(3, 8))
                 cases.append(ivpgen.base_case(0, solver, dim, t0, t1, r["dtmin"] * TICK, r["dtmax"] * TICK, tol, rhs, y0,
-                                              origin="model", variant=variant))
+                                              origin="model", variant=variant, snaps=(len(cases) % 4 == 0)))
     return cases
 
 
 def seeded(ctx, rng, per_solver):
     cases = []
     for solver in ivpgen.SOLVERS:
-        for _ in range(per_solver):
+        for j in range(per_solver):
             t0, t1, dtmin, dtmax, tol, span = ivpgen.random_config(rng, solver, long_ok=(solver != "euler"))
             dim = rng.randint(1, 4)
             kinds = ivpgen.SMOOTH_KINDS + (["rough"] if rng.random() < 0.3 else [])
             rhs, y0, _ = ivpgen.system(rng, dim, span, t0, kinds=kinds)
             cases.append(ivpgen.base_case(0, solver, dim, t0, t1, dtmin, dtmax, tol, rhs, y0, origin="seeded",
-                                          dyn=(rng.random() < 0.2)))
+                                          dyn=(rng.random() < 0.2), max_items=1000000,
+                                          snaps=(j % 3 == 0 and span / dtmax <= 300)))      # design level on a third of the runs
     return cases
+
+
+def design_level(ctx, events, byid):
+    """E3, design level: step() snapshots (cfg(bacon_verif) hooks) of the runs recorded with snaps=True are validated
+    against IvpProtocol over doubles (Trace_IvpProtocol). A run the design does not explain is DRIFT (non-fatal)."""
+    snapped = set(c["id"] for c in byid.values() if c.get("snaps"))
+    ev = [e for e in events if e["c"] in snapped]
+    if not ev:
+        return 0
+    drifts, nruns = ivpcommon.validate_design(ctx, ivpcommon.annotate_snaps(ev))
+    ctx.notes["design_level_runs_validated"] = nruns
+    ctx.notes["design_level_snapshots"] = sum(1 for e in ev if e["ev"] == "snap")
+    for cid, bad in drifts:
+        ctx.drift.append({"solver": byid[cid]["solver"], "case": ivpcommon.case_brief(byid[cid]), "unexplained_event": vlib.decode(bad)})
+    return len(drifts)
 
 
 def judge(ctx, cases):
@@ -84,6 +100,8 @@ def judge(ctx, cases):
         c["id"] = k + 1
     byid = {c["id"]: c for c in cases}
     events = ivpcommon.harness_runs(ctx, cases)
+    ndrift = design_level(ctx, events, byid)
+    events = [e for e in events if e["ev"] != "snap"]
     viols = ivpcommon.validate(ctx, events, "Val_Ivp")
     stats = ivpcommon.run_stats(events)
     for cid, st in stats.items():
@@ -103,7 +121,24 @@ def judge(ctx, cases):
                 ignored[name] = ignored.get(name, 0) + 1
     ctx.notes["conjuncts_of_other_properties_seen"] = ignored
     ctx.notes["runs_with_error"] = sum(1 for s in stats.values() if s["err"])
+    ctx.notes["drifting_runs"] = ndrift
     return stats
+
+
+def judge_extra(ctx, cases):
+    for k, c in enumerate(cases):
+        c["id"] = 100000 + k
+    byid = {c["id"]: c for c in cases}
+    events = ivpcommon.harness_runs(ctx, cases, tag="esc")
+    viols = ivpcommon.validate(ctx, events, "Val_Ivp", tag="esc")
+    stats = ivpcommon.run_stats(events)
+    for cid, st in stats.items():
+        ctx.count_case(ivpcommon.case_brief(byid[cid]), st["items"] >= 2 and st["none"] > 0 and st["err"] is None)
+    ctx.traces += len(stats)
+    for ev, conj, _ in viols:
+        for name in conj:
+            if name in CONJ:
+                ctx.violation(byid[ev["c"]]["solver"], name, ivpcommon.case_brief(byid[ev["c"]]), {"event": vlib.decode(ev)})
 
 
 def run(ctx):
@@ -113,10 +148,18 @@ def run(ctx):
     nmodel = len(cases)
     cases += seeded(ctx, rng, 24 if ctx.tier == "quick" else 240)
     judge(ctx, cases)
+    if ctx.drift and ctx.tier == "quick":
+        # the code has left the verified design: spend a bounded extra budget on the contract (DESIGN 2.2)
+        extra = seeded(ctx, random.Random(ctx.seed + 1000), 80)
+        for c in extra:
+            c["snaps"] = False
+        ctx.notes["escalated_after_drift"] = len(extra)
+        judge_extra(ctx, extra)
     ctx.notes["model_configuration_runs"] = nmodel
     ctx.rule = ("E1: all behaviours of IvpProtocol over integer ticks for every configuration of MC_IvpProtocol!Configs; "
                 "E2: those configurations (tick = 2^-6) x {zero, smooth, rough} right-hand sides on the real solvers; "
-                "E3: seeded random configurations (Appendix C of DESIGN.md). A run is non-trivial when it completes without "
+                "E3: seeded random configurations (Appendix C of DESIGN.md), contract level for all runs and design level (step() "
+                "snapshots against IvpProtocol over doubles) for the seeded runs and a third of the model configurations. A run is non-trivial when it completes without "
                 "error with >= 2 items; distinct by full input record")
     ctx.assumptions += ["integer-tick abstraction of time in E1 (valid while every step is >= 1 tick)",
                         "F64.java / JVM arithmetic, TLC evaluator, harness recording",
